@@ -41,13 +41,20 @@ func genBulk(t *rapid.T) BulkCase {
 	n := rapid.IntRange(2, 6).Draw(t, "nops")
 	for i := 0; i < n; i++ {
 		op := BulkOp{Kind: rapid.SampledFrom([]string{"insert", "insert", "update", "delete", "delete"}).Draw(t, fmt.Sprintf("k%d", i)),
-			Lo: rapid.SampledFrom([]int{0, 0, 500, 1000, 2500}).Draw(t, fmt.Sprintf("lo%d", i)), N: rapid.SampledFrom([]int{1, 255, 256, 1000, 1024, 1025, 2000, 4000}).Draw(t, fmt.Sprintf("n%d", i)),
+			Lo: rapid.SampledFrom([]int{0, 0, 500, 1000, 2500, 9000}).Draw(t, fmt.Sprintf("lo%d", i)), N: rapid.SampledFrom([]int{1, 255, 256, 1000, 1024, 1025, 2000, 4000, 1, 255, 1000, 8192, 8193, 10000}).Draw(t, fmt.Sprintf("n%d", i)),
 			Step: rapid.SampledFrom([]int{1, 1, 2, 3}).Draw(t, fmt.Sprintf("st%d", i))}
 		if i == 0 {
 			op.Kind = "insert"
 		}
 		c.Ops = append(c.Ops, op)
 		c.Reopen = append(c.Reopen, rapid.IntRange(0, 3).Draw(t, fmt.Sprintf("re%d", i)) == 0)
+	}
+	if rapid.IntRange(0, 5).Draw(t, "lateClash") == 0 {
+		// a batch of the maximum size whose only stored id sits near its end: rejected as a whole, nothing of
+		// the first thousands of points may stay behind
+		at := rapid.SampledFrom([]int{8191, 8192, 8193, 9000, 9999}).Draw(t, "clashAt")
+		c.Ops = append([]BulkOp{{Kind: "insert", Lo: at, N: 1, Step: 1}, {Kind: "insert", Lo: 0, N: 10000, Step: 1}}, c.Ops[:min(len(c.Ops), 2)]...)
+		c.Reopen = append([]bool{false, rapid.Bool().Draw(t, "clashReopen")}, c.Reopen[:min(len(c.Reopen), 2)]...)
 	}
 	return c
 }
